@@ -2,7 +2,7 @@
 C03 — resource sets behave as exact, canonical sets of addresses / AS numbers.
 Only property theorems and non-vacuity examples; lemmas are in Rpki/Proofs/Chain*.lean.
 -/
-import Rpki.Proofs.ChainLemmas
+import Rpki.Proofs.ChainOps
 namespace Rpki.C03
 open Rpki.Chain Rpki.Consts
 
@@ -22,6 +22,71 @@ theorem eq_iff_same_set (M : Nat) (a b : List Blk) (ha : Canon M a) (hb : Canon 
   · intro h x; rw [h]
   · exact canon_unique' M a b ha hb
 
+/-- **Collecting blocks.** Any finite sequence of well-formed blocks — sorted or not, overlapping,
+adjacent, duplicated, touching 0 or the maximum — collects into a canonical chain that denotes
+exactly the union of the blocks. -/
+theorem fromIter_canon_den (M : Nat) (bs : List Blk) (h : ∀ b ∈ bs, b.lo ≤ b.hi ∧ b.hi ≤ M) :
+    Canon M (fromIter M bs) ∧ ∀ x, mem (fromIter M bs) x ↔ ∃ b ∈ bs, b.lo ≤ x ∧ x ≤ b.hi :=
+  fromIter_spec' M bs h
+
+/-- Containment (`is_encompassed`, `contains`, `verify_covered`) is set inclusion. -/
+theorem isEncompassed_iff (M : Nat) (a b : List Blk) (ha : Canon M a) (hb : Canon M b) :
+    isEncompassed a b = true ↔ ∀ x, mem a x → mem b x := isEncompassed_iff' M a b ha hb
+
+/-- `trim`: `ok` means inclusion; otherwise the result is the canonical chain of the intersection. -/
+theorem trim_spec (M : Nat) (a b : List Blk) (ha : Canon M a) (hb : Canon M b) :
+    match trim M a b with
+    | .ok () => ∀ x, mem a x → mem b x
+    | .error r => Canon M r ∧ ∀ x, mem r x ↔ (mem a x ∧ mem b x) := trim_spec' M a b ha hb
+
+/-- Difference is canonical and denotes the set difference. -/
+theorem difference_spec (M : Nat) (a b : List Blk) (ha : Canon M a) (hb : Canon M b) :
+    Canon M (difference a b) ∧ ∀ x, mem (difference a b) x ↔ (mem a x ∧ ¬ mem b x) :=
+  difference_spec' M a b ha hb
+
+/-- Union is canonical and denotes the set union. -/
+theorem union_spec (M : Nat) (a b : List Blk) (ha : Canon M a) (hb : Canon M b) :
+    Canon M (union M a b) ∧ ∀ x, mem (union M a b) x ↔ (mem a x ∨ mem b x) := union_spec' M a b ha hb
+
+/-- Intersection is canonical and denotes the set intersection. -/
+theorem inter_spec (M : Nat) (a b : List Blk) (ha : Canon M a) (hb : Canon M b) :
+    Canon M (inter M a b) ∧ ∀ x, mem (inter M a b) x ↔ (mem a x ∧ mem b x) := inter_spec' M a b ha hb
+
+/-- **Issuance.** Whatever `verify_issued` returns is canonical and a subset of the issuer's set:
+the claim itself when covered under the refuse policy (an error exactly when it is not covered), the
+intersection under the trimming policy, the issuer's set for `inherit`, the empty set for `missing`. -/
+theorem verifyIssued_subset (M : Nat) (issuer : List Blk) (hi : Canon M issuer) (claim : Claim) (trimMode : Bool)
+    (hc : ∀ c, claim = .blocks c → Canon M c) :
+    match verifyIssued M issuer claim trimMode with
+    | some r =>
+      Canon M r ∧ (∀ x, mem r x → mem issuer x) ∧
+      (match claim with
+       | .missing => r = []
+       | .inherit => r = issuer
+       | .blocks c => if trimMode then ∀ x, mem r x ↔ (mem c x ∧ mem issuer x)
+                      else r = c ∧ ∀ x, mem c x → mem issuer x)
+    | none => ∃ c, claim = .blocks c ∧ trimMode = false ∧ ¬ ∀ x, mem c x → mem issuer x :=
+  verifyIssued_spec' M issuer hi claim trimMode hc
+
+/-- A single block (a ROA prefix, a range) is contained exactly when all its items are in the set. -/
+theorem containsBlock_iff (M : Nat) (c : List Blk) (hc : Canon M c) (b : Blk) (hb : b.lo ≤ b.hi) :
+    containsBlock c b = true ↔ ∀ x, b.lo ≤ x → x ≤ b.hi → mem c x := containsBlock_iff' M c hc b hb
+
+/-- … and intersects exactly when some item of it is. -/
+theorem intersectsBlock_iff (M : Nat) (c : List Blk) (hc : Canon M c) (b : Blk) (hb : b.lo ≤ b.hi) :
+    intersectsBlock c b = true ↔ ∃ x, b.lo ≤ x ∧ x ≤ b.hi ∧ mem c x :=
+  intersectsBlock_iff' c (fun r hr => (hc.1 r hr).1) b hb
+
+/-- The ASN count never panics; it is the number of items when that fits 32 bits and saturates
+otherwise (the full AS space has 2^32 items). -/
+theorem asnCount_spec (c : List Blk) : asnCount c = some (min 4294967295 (total c)) := asnCount_spec' c
+
+/-- When `into_prefix` reports a prefix the range is exactly that aligned power-of-two block.
+(partial: that every aligned block *is* reported as a prefix is decided by the oracle on the
+implementation, not proved — it needs bit-level facts about xor/leading_zeros.) -/
+theorem intoPrefix_sound_partial (W lo hi len : Nat) (h : intoPrefix W lo hi = some len) :
+    lo % 2 ^ (W - len) = 0 ∧ hi = lo + 2 ^ (W - len) - 1 := intoPrefix_sound W lo hi len h
+
 /-! ## Non-vacuity -/
 
 example : Canon 4294967295 [⟨0, 2⟩, ⟨4, 4⟩, ⟨4294967294, 4294967295⟩] := by
@@ -30,5 +95,8 @@ example : Canon 4294967295 [⟨0, 2⟩, ⟨4, 4⟩, ⟨4294967294, 4294967295⟩
   · simp [List.pairwise_cons]
 example : fromIter 100 [⟨10, 20⟩, ⟨30, 40⟩, ⟨15, 35⟩] = [⟨10, 40⟩] := by decide
 example : difference [⟨0, 10⟩] [⟨3, 4⟩, ⟨10, 12⟩] = [⟨0, 2⟩, ⟨5, 9⟩] := by decide
+example : verifyIssued 100 [⟨0, 50⟩] (.blocks [⟨40, 60⟩]) true = some [⟨40, 50⟩] := by decide
+example : verifyIssued 100 [⟨0, 50⟩] (.blocks [⟨40, 60⟩]) false = none := by
+  simp [verifyIssued, isEncompassed, isEncompassedAux]
 
 end Rpki.C03
